@@ -83,8 +83,12 @@ let run_inv (args : (string * string) list) : string =
 
 let run_run (args : (string * string) list) : string =
   let status = get args "status" in
-  if status <> "ok" then " status=FAIL(" ^ short status ^ ")"
-  else begin
+  let starts p = String.length status >= String.length p && String.sub status 0 (String.length p) = p in
+  if status <> "ok" then begin
+    (* the empty graph may be refused (combine_labels refuses zero nodes), not crashed on *)
+    if get_int args "n" = 0 && (starts "err:" || starts "combine:err:") then " status=ok refused=ok"
+    else " status=FAIL(" ^ short status ^ ")"
+  end else begin
     let n = get_int args "n" in
     let g = nll (get args "g") in
     let stored = nll (get args "stored") in
